@@ -83,6 +83,13 @@ def write_all(d: str):
         os.symlink(os.path.join("deep", "er"), os.path.join(d, "lnk"))
     write_table(os.path.join(d, "deep"), "t.csv", "csv", TABLE_XYZ3, "rows")
     write_table(d, "t.csv", "csv", TABLE_XY, "rows")  # the decoy at the lexically collapsed location
+    # the process works somewhere else (relative source paths are relative to the base directory handed to the expander, not to the
+    # working directory), and that place holds namesakes with other content
+    alt = os.path.join(d, "elsewhere")
+    os.makedirs(alt, exist_ok=True)
+    for name, (fmt, tab, shape) in FILES.items():
+        write_table(alt, name, fmt, {"x": [9, 8, 7], "y": [9.5, 8.5, 7.5], "w": [0, 0, 0]} if tab is not TABLE_XYZ3 else TABLE_XY, "rows")
+    os.chdir(alt)
 
 
 CTX1 = [
